@@ -1,5 +1,7 @@
 import XmppModel.Model.Ibb
 import XmppModel.Model.IbbReader
+import XmppModel.Model.IbbReaders
+import XmppModel.Lemmas.IbbReaders
 import XmppModel.Model.IbbSend
 import XmppModel.Lemmas.Ibb
 import XmppModel.Lemmas.IbbSend
@@ -108,7 +110,7 @@ theorem C15_open_reply_iff_listening (s : LState) (sid : Nat) (hp : s.pending = 
     ((lstep s (.open sid)).reply = some true ↔ s.listening = true) ∧
     ((lstep s (.open sid)).reply = some false ↔ s.listening = false) ∧
     (s.listening = false → (lstep s (.open sid)).st = s) := by
-  cases hl : s.listening <;> simp [lstep, hl, hp] <;> split <;> simp
+  cases hl : s.listening <;> simp [lstep, hl, hp] <;> (repeat' split) <;> simp_all
 
 /-- after the listener was closed (and until somebody listens again) every open is refused and no
 `Accept` can succeed -/
@@ -117,6 +119,27 @@ theorem C15_closed_listener_refuses (s : LState) (sid : Nat) :
     (lstep s' (.open sid)).reply = some false ∧ (lstep s' (.open sid)).st = s' ∧
     (lstep s' .accept).conns = 0 ∧ (lstep s' .accept).errs = 1 ∧ s'.pending = none := by
   simp [lstep]
+
+/-- an `Expect` whose context has ended (or that has returned for any other reason) is never
+handed a stream: a later matching open request is treated like any other — given to a waiting
+`Accept` or kept until one comes — and the handler is not left sending to nobody -/
+theorem C15_cancelled_expect_is_forgotten (s : LState) (sid : Nat) :
+    let s' := (lstep s .cancelExpect).st
+    s'.expecting = none ∧ (lstep s' (.open sid)).xconn = false ∧
+    (s'.listening = true → s'.pending = none → (lstep s' (.open sid)).reply = some true) := by
+  refine ⟨rfl, ?_, ?_⟩
+  · cases hl : s.listening <;> cases hp : s.pending <;> simp [lstep, hl, hp] <;> split <;> simp
+  · intro hl hp
+    simp only [lstep] at hl hp ⊢
+    simp [hl, hp]
+    split <;> simp
+
+/-- a waiting `Expect` gets exactly the stream it asked for, before any `Accept` -/
+theorem C15_expect_takes_its_stream (s : LState) (sid : Nat) (hl : s.listening = true) (hp : s.pending = none)
+    (he : s.expecting = some sid) :
+    (lstep s (.open sid)).xconn = true ∧ (lstep s (.open sid)).conns = 0 ∧
+    (lstep s (.open sid)).reply = some true ∧ (lstep s (.open sid)).st.expecting = none := by
+  simp [lstep, hl, hp, he]
 
 /-- closing the listener ends every waiting `Accept` with an error and drops a stream that was
 still waiting to be accepted -/
@@ -493,6 +516,141 @@ theorem C15_directions_corollary (cd : Codec) (ops : List EOp) (e : Endpoint) :
     (erun cd e ops).rx.buf = (rxRun cd e.rx ops).buf := by
   have := C15_both_directions cd ops e
   rw [this.1, this.2]; exact ⟨rfl, rfl⟩
+
+/-! ### any number of readers: all of them return after a close -/
+section Readers
+open XmppModel.IbbReaders
+
+/-- the invariant, parametric in the number of readers: on a closed stream, as long as some
+reader is about to wait or waits, a signal is pending or some woken reader is about to re-post it -/
+theorem C15_readers_inv {s} (hr : IbbReaders.Reach true s) (hc : s.closed = true) (i : Nat)
+    (hi : s.rpc i = .checked ∨ s.rpc i = .waiting) : s.tok = true ∨ ∃ j, s.rpc j = .woken := by
+  have h := IbbReaders.inv_reach hr
+  by_cases ht : s.tok = true
+  · exact Or.inl ht
+  · by_cases hw : ∃ j, s.rpc j = .woken
+    · exact Or.inr hw
+    · have := h hc (by simpa using ht) (fun j hj => hw ⟨j, hj⟩) i
+      rcases hi with hi | hi
+      · exact absurd hi this.1
+      · exact absurd hi this.2
+
+/-- progress: on a closed stream a reader inside `Read` is never stuck — some reader step is enabled -/
+theorem C15_readers_progress {s} (hr : IbbReaders.Reach true s) (hc : s.closed = true) (i : Nat)
+    (hi : s.rpc i ≠ .idle) :
+    ∃ j, (IbbReaders.step true s (.enterWait j)).isSome ∨ (IbbReaders.step true s (.wake j)).isSome ∨
+      (IbbReaders.step true s (.recheck j)).isSome := by
+  cases hri : s.rpc i with
+  | idle => exact absurd hri hi
+  | checked => exact ⟨i, Or.inl (by simp [IbbReaders.step, hri])⟩
+  | woken => exact ⟨i, Or.inr (Or.inr (by simp [IbbReaders.step, hri, hc]; split <;> simp))⟩
+  | waiting =>
+    rcases C15_readers_inv hr hc i (Or.inr hri) with ht | ⟨j, hj⟩
+    · exact ⟨i, Or.inr (Or.inl (by simp [IbbReaders.step, hri, ht]))⟩
+    · exact ⟨j, Or.inr (Or.inr (by simp [IbbReaders.step, hj, hc]; split <;> simp))⟩
+
+theorem measure_of_rpc_upd (s t : IbbReaders.St) (j n : Nat) (v : IbbReaders.RPc) (hj : j < n)
+    (ht : t.rpc = IbbReaders.upd s.rpc j v) :
+    IbbReaders.measure t n + IbbReaders.weight (s.rpc j) = IbbReaders.measure s n + IbbReaders.weight v := by
+  have h1 := IbbReaders.measure_eq_of_rpc { s with rpc := IbbReaders.upd s.rpc j v } t ht n
+  have h2 := IbbReaders.measure_upd s j v n hj
+  omega
+
+/-- every step of a reader inside `Read` on a closed stream brings the readers strictly closer to
+having all returned (checked 3, waiting 2, woken 1, returned 0) -/
+theorem C15_readers_measure_decreases {s s'} {a : IbbReaders.Act} {j n : Nat} (hc : s.closed = true) (hj : j < n)
+    (ha : a = .enterWait j ∨ a = .wake j ∨ a = .recheck j) (hs : IbbReaders.step true s a = some s') :
+    IbbReaders.measure s' n < IbbReaders.measure s n ∧ s'.closed = true := by
+  rcases ha with rfl | rfl | rfl <;> simp only [IbbReaders.step] at hs
+  · split at hs
+    · rename_i hr
+      simp at hs
+      have := measure_of_rpc_upd s s' j n .waiting hj (by rw [← hs])
+      rw [hr] at this; simp only [IbbReaders.weight] at this
+      exact ⟨by omega, by rw [← hs]; exact hc⟩
+    · simp at hs
+  · split at hs
+    · rename_i hr
+      split at hs
+      · simp at hs
+        have := measure_of_rpc_upd s s' j n .woken hj (by rw [← hs])
+        rw [hr] at this; simp only [IbbReaders.weight] at this
+        exact ⟨by omega, by rw [← hs]; exact hc⟩
+      · simp at hs
+    · simp at hs
+  · split at hs
+    · rename_i hr
+      simp only [hc, if_true] at hs
+      split at hs <;>
+        (simp at hs
+         have := measure_of_rpc_upd s s' j n .idle hj (by rw [← hs])
+         rw [hr] at this; simp only [IbbReaders.weight] at this
+         exact ⟨by omega, by rw [← hs]⟩)
+    · simp at hs
+
+/-- C15_all_readers_return_after_close: for any number of readers (all readers with index ≥ n are
+outside `Read`) and from any reachable state of any schedule in which the stream is closed, the
+readers' own steps — which are never stuck (`C15_readers_progress`) and each of which decreases
+the measure — lead to a state in which every `Read` has returned -/
+theorem C15_all_readers_return_after_close (n : Nat) : ∀ (m : Nat) (s : IbbReaders.St),
+    IbbReaders.Reach true s → s.closed = true → (∀ i, n ≤ i → s.rpc i = .idle) → IbbReaders.measure s n = m →
+    ∃ s', IbbReaders.Reach true s' ∧ s'.closed = true ∧ (∀ i, s'.rpc i = .idle) ∧ s.eofs ≤ s'.eofs := by
+  intro m
+  induction m using Nat.strongRecOn with
+  | _ m ih =>
+    intro s hr hc hn hm
+    by_cases hall : ∀ i, s.rpc i = .idle
+    · exact ⟨s, hr, hc, hall, Nat.le_refl _⟩
+    · have ⟨i, hi⟩ : ∃ i, s.rpc i ≠ .idle := Classical.not_forall.mp hall
+      obtain ⟨j, hj⟩ := C15_readers_progress hr hc i hi
+      -- the reader that can move is one of the first n
+      have hjn : ∀ a, (a = IbbReaders.Act.enterWait j ∨ a = .wake j ∨ a = .recheck j) →
+          (IbbReaders.step true s a).isSome → j < n := by
+        intro a ha hs
+        by_cases h : j < n
+        · exact h
+        · have := hn j (by omega)
+          rcases ha with rfl | rfl | rfl <;> simp [IbbReaders.step, this] at hs
+      have move : ∀ a, (a = IbbReaders.Act.enterWait j ∨ a = .wake j ∨ a = .recheck j) →
+          (IbbReaders.step true s a).isSome →
+          ∃ s', IbbReaders.Reach true s' ∧ s'.closed = true ∧ (∀ i, s'.rpc i = .idle) ∧ s.eofs ≤ s'.eofs := by
+        intro a ha hs
+        obtain ⟨s1, hs1⟩ := Option.isSome_iff_exists.mp hs
+        have hdec := C15_readers_measure_decreases hc (hjn a ha hs) ha hs1
+        have hidle : ∀ i, n ≤ i → s1.rpc i = .idle := by
+          intro i hi'
+          have hne : i ≠ j := by have := hjn a ha hs; omega
+          rcases ha with rfl | rfl | rfl <;> simp only [IbbReaders.step] at hs1 <;> split at hs1 <;>
+            (try split at hs1) <;> (try split at hs1) <;> (try simp at hs1) <;> (try subst hs1) <;>
+            simp [IbbReaders.upd, hne, hn i hi']
+        have heof : s.eofs ≤ s1.eofs := by
+          rcases ha with rfl | rfl | rfl <;> simp only [IbbReaders.step] at hs1 <;> split at hs1 <;>
+            (try split at hs1) <;> (try split at hs1) <;> (try simp at hs1) <;> (try subst hs1) <;> simp
+        obtain ⟨s2, h2⟩ := ih (IbbReaders.measure s1 n) (by omega) s1 (.step hr hs1) hdec.2 hidle rfl
+        exact ⟨s2, h2.1, h2.2.1, h2.2.2.1, Nat.le_trans heof h2.2.2.2⟩
+      rcases hj with h | h | h
+      · exact move _ (Or.inl rfl) h
+      · exact move _ (Or.inr (Or.inl rfl)) h
+      · exact move _ (Or.inr (Or.inr rfl)) h
+
+/-- negation witness (seeded C06-11: the woken reader does not re-post the signal): two readers
+wait, the stream is closed, the first one returns — the second waits with no signal pending and
+nobody about to post one -/
+theorem C15_readers_stuck_without_repost :
+    ∃ s, IbbReaders.Reach false s ∧ s.closed = true ∧ s.rpc 1 = .waiting ∧ s.tok = false ∧
+      (∀ j, s.rpc j ≠ .woken) ∧ IbbReaders.step false s (.wake 1) = none := by
+  have h : ∃ s, IbbReaders.run false {} [.readStart 0, .readStart 1, .enterWait 0, .enterWait 1, .close, .wake 0,
+      .recheck 0] = some s ∧ s.closed = true ∧ s.rpc 1 = .waiting ∧ s.tok = false ∧
+      (∀ j, s.rpc j ≠ .woken) ∧ IbbReaders.step false s (.wake 1) = none := by
+    refine ⟨⟨0, false, true, fun j => if j = 1 then .waiting else .idle, 0, 1⟩, ?_, rfl, rfl, rfl, ?_, rfl⟩
+    · simp [IbbReaders.run, IbbReaders.step, IbbReaders.upd]
+      funext j
+      by_cases h0 : j = 0 <;> by_cases h1 : j = 1 <;> simp [XmppModel.IbbReaders.upd, h0, h1]
+    · intro j; by_cases h1 : j = 1 <;> simp [h1]
+  obtain ⟨s, hs, rest⟩ := h
+  exact ⟨s, IbbReaders.reach_run .init hs, rest⟩
+
+end Readers
 
 /-! ### the executable codec instance: spot checks -/
 example : std.dec (std.enc [1, 2, 3, 4, 5]) = some [1, 2, 3, 4, 5] := by decide
